@@ -52,10 +52,7 @@ def interpreters(tier):
         exe = os.path.join(base, v, 'bin', 'python')
         if os.path.exists(exe) and not v.startswith('3.12'):
             out.append((v, exe))
-    if tier == 'quick':
-        keep = [x for x in out if x[0].startswith(('2.7', '3.6', '3.8', '3.13'))]
-        return keep
-    return out
+    return out      # every installed interpreter in both tiers: version guards in the printers are per minor version
 
 
 def tasks(tier):
@@ -307,7 +304,7 @@ def run_task(task):
 def all_sources(tier, part, nparts):
     """the expr2 / pattern / nums / (reduced) strs sources as (label, src), sharded"""
     n = 0
-    for gen in (exprs.depth2_cases(), exprs.pattern_cases(), nums.cases(), strs.cases('quick', 0, 1 if tier == 'thorough' else 4)):
+    for gen in (exprs.depth2_cases(), exprs.pattern_cases(), nums.cases(), strs.cases('quick', 0, 1 if tier == 'thorough' else 8)):
         for label, src in gen:
             n += 1
             if n % nparts == part:
